@@ -463,6 +463,18 @@ def run_family(case):
         check(f"({e}) * (2 - I)", X * (2 - sympy.I), mx * (2 - 1j), dx, ux)
         check(f"(2 - I) * ({e})", (2 - sympy.I) * X, mx * (2 - 1j), dx, ux)
         check(f"({e}) / 3", X / 3, mx / 3, dx, ux)
+        # division by an invertible function of number operators is right multiplication by its inverse; the divisor
+        # is given with the full operator list, with its own (smaller) list, and on two modes
+        N1 = NumberOperator(x1)
+        divisors = [("2*N0 + 5", 2 * N0 + 5, modes), ("2*N0 + 3 [own operators]", 2 * N0 + 3, None)]  # odd: no integer root (ladder modes)
+        if len(ms) > 1:
+            divisors += [("2*N0 + 2*N1 + 1", 2 * N0 + 2 * N1 + 1, modes), ("4*N1 + 3 [own operators]", 4 * N1 + 3, None), ("2*N0 + 4*N1 + 1 [own operators]", 2 * N0 + 4 * N1 + 1, None)]
+        for dl, de, dm_ in divisors:
+            Dn = NumberOrderedForm.from_expr(de, dm_) if dm_ is not None else NumberOrderedForm.from_expr(de)
+            mD = sp.expr_matrix(de)
+            invD = np.diag(1 / np.diag(mD))
+            check(f"({e}) / ({dl})", X / Dn, mx @ invD, dx, ux)
+            check(f"(({e}) / ({dl})) * ({dl})", (X / Dn) * Dn, mx, dx, ux)
         check(f"({e}) * 2 (Python int)", X * 2, mx * 2, dx, ux)
         check(f"({e}) * 0.5 (Python float)", X * 0.5, mx * 0.5, dx, ux)
         check(f"2 * ({e}) (Python int)", 2 * X, mx * 2, dx, ux)
